@@ -287,3 +287,9 @@ def main(tier, seed):
                    ['transitions are referred to by index (identity of equal-but-distinct Transition objects is not modelled)',
                     'state names are strings (name None not modelled)'], n_viol)
     return v.finish()
+
+
+def replay(path):
+    import json
+    import icheck
+    return icheck.replay(path)
